@@ -61,6 +61,8 @@ type chRun struct {
 	ovfReturned  bool     // an iterator's return() handed back the (wrapped) StackOverflowError of its nested call
 	depthLimit   int      // the call-depth limit in force (math.MaxInt32: none)
 	gotUnc       []bool   // gotUnc[k]: native frame k was handed an uncatchable error by its nested call
+	enteredFos   []bool   // cnForOfStep frame k started its rt.ForOf
+	doneFos      []bool   // ... and rt.ForOf returned
 	iterFired    []string // what the host iterators actually did (fault counters)
 
 	// values the host holds
@@ -584,6 +586,45 @@ func (r *chRun) registerFrame(k int) {
 			}
 			return v
 		})
+	case cnForOfStep:
+		seg := r.segOf[k]
+		drive := func(it goja.Value) goja.Value {
+			r.ev(seg, "N%d", k)
+			r.enteredFos[k] = true
+			var out goja.Value = goja.Undefined()
+			if f.sel&fosInNext != 0 {
+				// the iterable's script next() calls the next frame
+				rt.ForOf(it, func(cur goja.Value) bool { out = cur; return false })
+				r.doneFos[k] = true
+				r.ev(seg, "X%d(%s)", k, out.String())
+				return out
+			}
+			rt.ForOf(it, func(goja.Value) bool {
+				v, err := r.callNext(k)
+				if v == nil {
+					v = goja.Undefined()
+				}
+				r.recv(k, v, err, false)
+				if err != nil {
+					panic(err)
+				}
+				r.ev(seg, "X%d(%s)", k, v.String())
+				out = v
+				return false
+			})
+			r.doneFos[k] = true
+			return out
+		}
+		if f.sel&fosReflect != 0 {
+			rt.Set(fmt.Sprintf("NQ%d", k), func(it goja.Value) (out goja.Value, err error) {
+				if ex := rt.Try(func() { out = drive(it) }); ex != nil {
+					return nil, ex
+				}
+				return out, nil
+			})
+		} else {
+			rt.Set(fmt.Sprintf("NQ%d", k), func(call goja.FunctionCall) goja.Value { return drive(call.Argument(0)) })
+		}
 	case cnRunProgram:
 		rt.Set(name, func(goja.FunctionCall) goja.Value {
 			v, err := r.via(k, false, func() (goja.Value, error) { return rt.RunScript("nested", chFn(k+1)+"()") })
@@ -624,6 +665,12 @@ func (r *chRun) registerRecorders() {
 	})
 	// B(K, v): the body of frame K's loop (or its destructuring default) got v back from the next frame. It tells a close
 	// after normal completion of the body from a close during unwinding in the event log.
+	// RL(K): the script return() method of frame K's iterable was called
+	rt.Set("RL", func(call goja.FunctionCall) goja.Value {
+		k := int(call.Argument(0).ToInteger())
+		r.ev(r.segOf[k], "r%d", k)
+		return goja.Undefined()
+	})
 	rt.Set("B", func(call goja.FunctionCall) goja.Value {
 		k := int(call.Argument(0).ToInteger())
 		r.ev(r.segOf[k], "b%d", k)
@@ -720,6 +767,10 @@ func (r *chRun) prepareValues() {
 	r.iv = make([]chIterVals, r.n+1)
 	for k := 1; k <= r.n; k++ {
 		f := r.frames[k-1]
+		if f.kind == cnForOfStep && f.sret == sretThrow {
+			r.iv[k].retPay = &chPay{kind: pkKnown, class: "[Object]", val: rt.NewObject()}
+			rt.Set(fmt.Sprintf("RV%d", k), r.iv[k].retPay.val)
+		}
 		if !f.usesHostIter() {
 			continue
 		}
@@ -1034,6 +1085,19 @@ func chScript(frames []chFrame, entry, payload, flavour int) (string, int) {
 			emit(`var IT%d = { [Symbol.iterator]: function(){ return { next: function(){ return {value: %s(), done: false}; } }; } };`, k, nx)
 		case cnCtorReenter:
 			emit(`function KK%d(){ this.v = %s(); }`, k, nx)
+		case cnForOfStep:
+			next := `function(){ return {value: 1, done: false}; }`
+			if f.sel&fosInNext != 0 {
+				next = fmt.Sprintf(`function(){ return {value: B(%d, %s()), done: false}; }`, k, nx)
+			}
+			ret := ""
+			switch f.sret {
+			case sretObject:
+				ret = fmt.Sprintf(`, return: function(){ RL(%d); return {}; }`, k)
+			case sretThrow:
+				ret = fmt.Sprintf(`, return: function(){ RL(%d); throw RV%d; }`, k, k)
+			}
+			emit(`function SI%d(){ return { [Symbol.iterator]: function(){ return this; }, next: %s%s }; } function %s(){ return NQ%d(SI%d()); }`, k, next, ret, fn, k, k)
 		default:
 			emit(`// %s is a host function (%s)`, fn, chKindNames[f.kind])
 		}
